@@ -35,8 +35,22 @@ def backslash_runs():
     return out
 
 
+def long_strings(rnd, n):
+    out = ['.'.join('abcdefghijklmnopqrstuvwxyz0123'), 'https://www.example.com/a/b/c/d/e/f.g.h?i=j&k=(l)+m*n|o[p]{q}^r$s', '+----+----+----+----+----+----+',
+           '/usr/local/lib/python3.12/site-packages/pregex/core/pre.py::Pregex.__init__(self, pattern)', ''.join(META) * 3, '\\' * 20 + 'd',
+           '(' * 30 + ')' * 30, 'a' * 100 + '.', '$' * 26, '1.2.3.4.5.6.7.8.9.10.11.12.13.14.15.16.17.18.19.20.21.22.23.24.25.26.27.28', '[x]' * 12, 'a|' * 40,
+           ('x' * 63) + '.', ('x' * 64) + '.', ('x' * 65) + '+', 'ab' * 200 + '?']
+    for _ in range(n):
+        L_ = rnd.choice([25, 26, 30, 33, 48, 64, 65, 100, 129, 257])
+        k = rnd.random()
+        alpha = META if k < 0.4 else META + ['a', 'b', '0', ' ', '\n', '-'] if k < 0.8 else ['a', 'b', 'c', '.', '\\']
+        out.append(''.join(rnd.choice(alpha) for _ in range(L_)))
+    return out
+
+
 def hostile_strings(tier, rnd):
     out = list(SIGMA1)
+    out += long_strings(rnd, 12 if tier == 'quick' else 200)
     out += [a + b for a in SIGMA2 for b in SIGMA2]
     out += LOOKALIKES
     out += backslash_runs()
@@ -190,7 +204,7 @@ def leaf_basis(reduced=False):
         OPN('cap', OPN('alt', L('a'), L('b'))),
         OPN('cat', L('a'), CLS('AnyDigit')), OPN('mas', L('a')), OPN('male', L('a')),
         OPN('fol', L('a'), L('b')), OPN('npre', L('a'), L('b')), OPN('lenc', L('a'), L('q')),
-        {'o': 'bref', 'r': 1}, {'o': 'bref', 'r': 'g1'},
+        {'o': 'bref', 'r': 1}, {'o': 'bref', 'r': 'g1'}, L('0'), L('12'),
         OPN('cond', L('a'), name='g1'), OPN('cond', L('a'), L('bc'), name='g1'),
         RAW('a|b'), RAW('(?:ab)+'), RAW('[ab]c'),
     ]
@@ -309,7 +323,7 @@ def w3_depth2(rnd=None, sample=None):
 HOST = ['a', 'ab', 'a$', '^a', 'a|b', '[x', 'x]', '(', ')', 'a)', '(?:', 'a?', 'a+', '{2}', '\\', 'a\\', '\n', 'a.b',
         'é', '$', 'US$ 5', '?:x', 'a*b', '\\$', '(?P<', '>', '\\\\', 'x|', '|', '[a-z]', '^', 'a\nb', '-', '/', '(a)',
         '\\b', '\\A', '.', '?']
-BEN = ['a', 'b', 'ab', 'abc', 'x', 'xy', 'q', '0', '12', 'Ab']
+BEN = ['a', 'b', 'ab', 'abc', 'x', 'xy', 'q', '0', '12', 'Ab', '7', '0x']
 CLSCH = ['a', '[', '(', 'x', '+', '-', '$', ']', '^', '\\', '\n', '.', '?', '*', '{', ')', '/', 'z', '0']
 NAMED = ['AnyLetter', 'Any', 'AnyButDigit', 'AnyWhitespace', 'AnyDigit', 'AnyWordChar', 'AnyPunctuation',
          'AnyButWhitespace', 'AnyLowercaseLetter', 'AnyButLetter']
